@@ -114,16 +114,25 @@ class ProcessWorker(Worker):
         else:
             try:
                 self._ctrl_comms.parent_end.put('terminate')
-                self._ctrl_comms.parent_end.get()
-            except (BrokenPipeError, queue.Empty):
+                # The control thread closes its end once the request is delivered - but do not wait for that longer than
+                # the caller allows, the control thread might be unable to run at all (process stopped, target not releasing GIL)
+                if self._ctrl_comms.parent_end.poll(timeout):
+                    self._ctrl_comms.parent_end.get()
+            except (BrokenPipeError, queue.Empty, OSError):
                 pass
 
             self._release_child()
             self._child.join(timeout)
             if self._child.is_alive():
                 if force:
+                    # signals are not delivered instantly, so give the OS a moment even if called with timeout=0
+                    grace = timeout if timeout is None else max(timeout, 1)
                     self._child.terminate()
-                    self._child.join(timeout)
+                    self._child.join(grace)
+                    if self._child.is_alive():
+                        # SIGTERM stays pending e.g. for a stopped process
+                        self._child.kill()
+                        self._child.join(grace)
                     # try:
                     #     self._comms.child_end.put((False, None))
                     #     self._comms.child_end.close()
